@@ -91,6 +91,9 @@ func (dt DateTime) ToProtoDateTime() *dtpb.DateTime {
 		p = dtpb.DateTime_MILLISECOND
 	case dtSecondLayoutTZ, dtSecondLayout:
 		p = dtpb.DateTime_SECOND
+	case dtMinuteLayoutTZ, dtMinuteLayout, dtHourLayoutTZ, dtHourLayout:
+		// a FHIR dateTime that has a time has its seconds: the closest element
+		p = dtpb.DateTime_SECOND
 	case dtDayLayout:
 		p = dtpb.DateTime_DAY
 	case dtMonthLayout:
